@@ -24,11 +24,16 @@ TRANSPORTS = ["tcp", "unix", "ws", "udp"]
 
 
 def hook_present():
+    """the tree under test carries the whole of hooks/c09c10-transports.patch: the hook files AND the call lines"""
     for pkg in ("socket", "websocket", "udp"):
-        p = os.path.join(hv.REPO, "rpc", pkg, "verif_on.go")
         try:
-            if "VerifEventHook" not in open(p).read():
+            if "VerifEventHook" not in open(os.path.join(hv.REPO, "rpc", pkg, "verif_on.go")).read():
                 return False
+            src = open(os.path.join(hv.REPO, "rpc", pkg, "transport.go")).read()
+            for needle in ('verifYield("before-store"', 'verifEvent("store"', 'verifEvent("loadAndDelete"', 'verifEvent("clean-done"',
+                           'verifYieldErr("before-onExit"', 'verifYield("dequeued"'):
+                if needle not in src:
+                    return False
         except OSError:
             return False
     return True
